@@ -34,13 +34,14 @@ Lemma current_deletions_are_expected :
   current_gene_deletion_skeleton = del_skeleton_expected.
 Proof. split; reflexivity. Qed.
 
-(* what the drivers do around the workers (facts the model's dispatch / hypotheses rely on) *)
+(* what the drivers do around the workers, as far as the theorems' hypotheses depend on it:
+   the objective row is zero when the pools fork (zero_row), results are stored under the item's
+   id (keyed assembly), the pool workers are the modelled functions on the process-global model.
+   (The other facts in Gen/SchedSkeleton.v — chunk size, imap_unordered, pass order, ... — are
+   informational: the theorems hold for every chunking and delivery order.)                      *)
 Lemma current_driver_facts :
   forallb (fun b : bool => b)
-    [fva_init_sets_direction; fva_objective_zeroed_before_passes; fva_passes_min_then_max;
-     fva_chunk_is_floor_div; fva_uses_imap_unordered; fva_results_keyed_by_id; fva_serial_is_map;
-     deletion_workers_delegate; get_growth_catches_solver_error; deletion_chunk_is_floor_div;
-     deletion_uses_imap_unordered; deletion_args_is_set_of_frozensets] = true.
+    [fva_objective_zeroed_before_passes; fva_results_keyed_by_id; deletion_workers_delegate] = true.
 Proof. vm_compute. reflexivity. Qed.
 
 (* ------------------------------------------------------------------ the theorems, for the current source *)
